@@ -61,7 +61,8 @@ struct TolChi {
         for (auto& z : zero) t += std::abs(z.X) * std::max(z.wn, z.wm) * beta * 1e-8 * 1.01;          // exact w_n e^{-tau P} vs w_n, |P| < 1e-8
         for (auto& d : dropped) { double xw = std::abs(d.X) * std::max(d.wn, d.wm); if (literal || xw <= kNegligible) t += xw; }
         for (size_t k = 0; k < kept.size(); ++k) { double xw = std::abs(kept[k].X) * std::max(kept[k].wn, kept[k].wm);
-            t += xw * shift[k] * beta * 1.01 + 2e-15 * xw / std::min(1.0, beta * std::abs(kept[k].P)); }
+            // a merged pole moves the term R e^{-tau P}/(1-e^{-beta P}) (R fixed): |d/dP| <= x w (tau + beta e^{-beta P}/(1-e^{-beta P})) <= x w (beta + 1/|P|)
+            t += xw * shift[k] * (beta + 1.0 / std::max(std::abs(kept[k].P) - shift[k], 1e-300)) * 1.01 + 2e-15 * xw / std::min(1.0, beta * std::abs(kept[k].P)); }
         for (size_t k = 0; k < Pgroup.size(); ++k) t += double(kgroup[k]) * 1e-8 * 1.6 * std::max(1.0, 1.0 / (beta * std::max(std::abs(Pgroup[k]) - 2e-8, 1e-300)));
         return t * 1.05 + 1e-11 * (1 + std::abs(ref));
     }
